@@ -185,12 +185,6 @@ func init() {
 		m.writeTo(a[1], Concat(parts...))
 		return Tuple{int64(0), Iface{}}
 	})
-	// the reflective template executor: an opaque rendering of the named template
-	reg("(github.com/gontainer/gontainer/internal/pkg/template.tpl).exec", func(m *Machine, fn *ssa.Function, a []Value) Value {
-		t := a[0].(*Struct)
-		name, _ := t.F[1].(string)
-		return Tuple{"RENDERED<" + name + ">", Iface{}}
-	})
 	reg("(*regexp.Regexp).ReplaceAll", func(m *Machine, fn *ssa.Function, a []Value) Value {
 		// only use: squeezing blank lines of gofmt'ed text (opaque here)
 		return a[1]
